@@ -122,7 +122,7 @@ pub fn run_check(id: &str, tier: Tier) -> i32 {
             }
             if parts.iter().all(|p| p.failure.is_none()) && id == "C06" {
                 // requests queued behind the peer's stream limit, the slots released in every way a slot can be released
-                parts.push(run_engine(&crate::eng_queue::QueueEngine, &ctx, scale(tier, 30_000, 300_000)));
+                parts.push(run_engine(&runner::Reattributed { inner: crate::eng_queue::QueueEngine, from: "C05", to: "C06", label: "queued", only: "queued-request" }, &ctx, scale(tier, 30_000, 300_000)));
             }
             assumptions.push("the simulator's transport and executor honour the AsyncRead/AsyncWrite/Future contracts; the reference frame parser and HPACK decoder are correct".into());
         }
